@@ -56,13 +56,11 @@ class GreedyAllocator:
         self.current_allocs = [(start_addr, lr) for start_addr, lr in self.current_allocs if lr != lr_to_dealloc]
 
     def allocate_live_ranges(self, alignment):
-        lrs = set()
-        for lr in self.live_ranges.lrs:
-            lrs.add((lr.start_time, -lr.end_time, lr))
+        # The position in the list of live ranges breaks ties: two live ranges can be equal in every field LiveRange
+        # compares (tensors may share a name), and a set would then hand them out in the order of their addresses
+        lrs = sorted((lr.start_time, -lr.end_time, idx, lr) for idx, lr in enumerate(self.live_ranges.lrs))
 
-        lrs = sorted(lrs)
-
-        for curr_time, _, new_lr in lrs:
+        for curr_time, _, _, new_lr in lrs:
             for _, lr in list(self.current_allocs):
                 if lr.end_time < curr_time:
                     self.dealloc(lr)
